@@ -14,16 +14,25 @@ Definition is_nil {A} (l : list A) : bool := match l with [] => true | _ => fals
 
 (* ---- a tunnel / stream endpoint's read side: Chunks.rd plus "the last chunk comes with the end error"
         (Go's Read may return n > 0 together with io.EOF / an error) ---- *)
-Record trd := { t_rd : rd; t_wd : bool }.
+(* t_empty: one flag per future Read call; true = that call returns (0, nil) — which io.Reader permits (the client's
+   WebSocket transport does it for an empty binary message) — and consumes nothing *)
+Record trd := { t_rd : rd; t_wd : bool; t_empty : list bool }.
 
 Definition tread (cap : N) (t : trd) : list byte * option N * trd :=
-  match read1 cap (t_rd t) with
-  | None => ([], Some (endk (t_rd t)), t)
-  | Some (got, r') =>
-    if t_wd t && is_nil (rest r')
-    then (got, Some (endk r'), {| t_rd := r'; t_wd := t_wd t |})
-    else (got, None, {| t_rd := r'; t_wd := t_wd t |})
+  match t_empty t with
+  | true :: more => ([], None, {| t_rd := t_rd t; t_wd := t_wd t; t_empty := more |})
+  | _ =>
+    let more := tl (t_empty t) in
+    match read1 cap (t_rd t) with
+    | None => ([], Some (endk (t_rd t)), {| t_rd := t_rd t; t_wd := t_wd t; t_empty := more |})
+    | Some (got, r') =>
+      if t_wd t && is_nil (rest r')
+      then (got, Some (endk r'), {| t_rd := r'; t_wd := t_wd t; t_empty := more |})
+      else (got, None, {| t_rd := r'; t_wd := t_wd t; t_empty := more |})
+    end
   end.
+(* what is left to happen on a read side: bytes plus scripted empty reads *)
+Definition tmeasure (t : trd) : nat := (length (rest (t_rd t)) + length (t_empty t))%nat.
 
 (* ======================================================================================== *)
 (*  UDP, tunnel -> UDP direction (copy.go, second goroutine of func UDP)                    *)
@@ -166,9 +175,10 @@ Section Udp.
 End Udp.
 
 Definition w0 (fail : option N) : wst := {| w_log := []; w_cnt := 0; w_fail := fail; w_bytes := 0 |}.
-Definition ust0 (s : list byte) (cuts : list nat) (e : N) (wd : bool) (fail : option N) : ust :=
+Definition ust0e (s : list byte) (cuts : list nat) (e : N) (wd : bool) (emp : list bool) (fail : option N) : ust :=
   {| s_buf := []; s_pend := []; s_w := w0 fail;
-     s_t := {| t_rd := {| rest := s; cuts := cuts; endk := e; carry := false |}; t_wd := wd |}; s_err := 0 |}.
+     s_t := {| t_rd := {| rest := s; cuts := cuts; endk := e; carry := false |}; t_wd := wd; t_empty := emp |}; s_err := 0 |}.
+Definition ust0 (s : list byte) (cuts : list nat) (e : N) (wd : bool) (fail : option N) : ust := ust0e s cuts e wd [] fail.
 
 (* ======================================================================================== *)
 (*  UDP, UDP -> tunnel direction (first goroutine of func UDP): batching writer             *)
@@ -219,51 +229,73 @@ Record bsh := { b_buf : list byte;        (* batchBuf, as far as it has ever bee
                 b_lock : option nat;      (* batchMu: None | Some holder *)
                 b_out : list byte;        (* bytes the tunnel has consumed, in order *)
                 b_inq : list dgram;       (* datagrams the local side will still deliver *)
-                b_seen : list dgram }.    (* datagrams read so far, in arrival order *)
+                b_seen : list dgram;      (* datagrams read so far, in arrival order *)
+                b_cw : bool;              (* tryCloseWrite(tunnelConn) has happened: a tunnel that honours its half-close
+                                             refuses every later Write *)
+                b_werr : bool }.          (* some tunnel Write was refused *)
 Inductive bpc :=
 | BIdle | BHave                  (* outside / inside the critical section, nothing taken yet *)
 | BTaken (n : nat)               (* a Write of batchBuf[:n] is in flight *)
-| BUnlock | BFinal | BDone.
+| BUnlock | BFinal
+| BClose                         (* close(done); about to tryCloseWrite(tunnelConn) *)
+| BDone.
 
 (* copy(batchBuf[pos:], e): in place *)
 Definition store (pos : nat) (e : list byte) (buf : list byte) : list byte :=
   firstn pos buf ++ e ++ skipn (pos + length e) buf.
 Definition enc_ne (d : dgram) : list byte := match d with [] => [] | _ => enc_dgram d end.
 
-Section Own.
-  Variable LateWrite : bool.
-  Variable BatchBuf : nat.
+Definition bset (sh : bsh) buf pos lock out inq seen : bsh :=
+  {| b_buf := buf; b_pos := pos; b_lock := lock; b_out := out; b_inq := inq; b_seen := seen;
+     b_cw := b_cw sh; b_werr := b_werr sh |}.
+Definition bflags (sh : bsh) (cw werr : bool) : bsh :=
+  {| b_buf := b_buf sh; b_pos := b_pos sh; b_lock := b_lock sh; b_out := b_out sh; b_inq := b_inq sh;
+     b_seen := b_seen sh; b_cw := cw; b_werr := werr |}.
+(* tunnelConn.Write(batchBuf[:n]) returns (n = 0: flushLocked does not call Write at all) *)
+Definition write_n (n : nat) (sh : bsh) : bsh :=
+  if (0 <? n)%nat && b_cw sh then bflags sh (b_cw sh) true
+  else bset sh (b_buf sh) (b_pos sh) (b_lock sh) (b_out sh ++ firstn n (b_buf sh)) (b_inq sh) (b_seen sh).
+(* flushLocked(): if batchPos > 0 { Write(batchBuf[:batchPos]) -> err => return err; batchPos = 0 } *)
+Definition flush_locked (sh : bsh) : bsh :=
+  if (0 <? b_pos sh)%nat && b_cw sh then bflags sh (b_cw sh) true
+  else bset sh (b_buf sh) 0%nat (b_lock sh) (b_out sh ++ firstn (b_pos sh) (b_buf sh)) (b_inq sh) (b_seen sh).
 
-  Definition bset (sh : bsh) buf pos lock out inq seen : bsh :=
-    {| b_buf := buf; b_pos := pos; b_lock := lock; b_out := out; b_inq := inq; b_seen := seen |}.
+Section Own.
+  Variable LateWrite : bool.          (* the timed flush unlocks before its tunnel Write has returned *)
+  Variable FlushAfterClose : bool.    (* the final flush runs after close(done) + tryCloseWrite(tunnelConn) *)
+  Variable BatchBuf : nat.
 
   (* main loop, holding the lock, one datagram d: flush first if it does not fit; frame it at batchPos;
      flush if more than half full *)
+  Definition pre_flush (d : dgram) (sh : bsh) : bsh :=
+    if (BatchBuf <? b_pos sh + (2 + length d))%nat then flush_locked sh else sh.
+  Definition put_dgram (d : dgram) (sh : bsh) : bsh :=
+    bset sh (store (b_pos sh) (enc_dgram d) (b_buf sh)) (b_pos sh + (2 + length d))%nat (b_lock sh)
+         (b_out sh) (tl (b_inq sh)) (b_seen sh ++ [d]).
+  Definition post_flush (sh : bsh) : bsh :=
+    if (BatchBuf / 2 <? b_pos sh)%nat then flush_locked sh else sh.
   Definition frame_one (d : dgram) (sh : bsh) : bsh :=
     match d with
     | [] => bset sh (b_buf sh) (b_pos sh) (b_lock sh) (b_out sh) (tl (b_inq sh)) (b_seen sh ++ [d])
-    | _ =>
-      let '(out1, pos1) := if (BatchBuf <? b_pos sh + (2 + length d))%nat
-                           then (b_out sh ++ firstn (b_pos sh) (b_buf sh), 0%nat) else (b_out sh, b_pos sh) in
-      let buf2 := store pos1 (enc_dgram d) (b_buf sh) in
-      let pos2 := (pos1 + (2 + length d))%nat in
-      let '(out3, pos3) := if (BatchBuf / 2 <? pos2)%nat then (out1 ++ firstn pos2 buf2, 0%nat) else (out1, pos2) in
-      bset sh buf2 pos3 (b_lock sh) out3 (tl (b_inq sh)) (b_seen sh ++ [d])
+    | _ => post_flush (put_dgram d (pre_flush d sh))
     end.
 
   Definition main_own (pc : bpc) (sh : bsh) : bpc * bsh :=
     match pc with
-    | BIdle => match b_lock sh with
-               | None => (BHave, bset sh (b_buf sh) (b_pos sh) (Some 0%nat) (b_out sh) (b_inq sh) (b_seen sh))
-               | Some _ => (BIdle, sh)          (* batchMu.Lock() blocks *)
-               end
+    | BIdle =>
+      if FlushAfterClose && is_nil (b_inq sh) && negb (b_cw sh)
+      then (BIdle, bflags sh true (b_werr sh))      (* variant: the local side ended -> half-close the tunnel FIRST *)
+      else match b_lock sh with
+           | None => (BHave, bset sh (b_buf sh) (b_pos sh) (Some 0%nat) (b_out sh) (b_inq sh) (b_seen sh))
+           | Some _ => (BIdle, sh)          (* batchMu.Lock() blocks *)
+           end
     | BHave => match b_inq sh with
                | d :: _ => (BUnlock, frame_one d sh)
-               | [] => (* the local side ended: flushLocked() — the Write returns before the lock is released *)
-                 (BFinal, bset sh (b_buf sh) 0%nat (b_lock sh) (b_out sh ++ firstn (b_pos sh) (b_buf sh)) [] (b_seen sh))
+               | [] => (BFinal, flush_locked sh)   (* the local side ended: flushLocked(), still under the lock *)
                end
     | BUnlock => (BIdle, bset sh (b_buf sh) (b_pos sh) None (b_out sh) (b_inq sh) (b_seen sh))
-    | BFinal => (BDone, bset sh (b_buf sh) (b_pos sh) None (b_out sh) (b_inq sh) (b_seen sh))
+    | BFinal => (BClose, bset sh (b_buf sh) (b_pos sh) None (b_out sh) (b_inq sh) (b_seen sh))
+    | BClose => (BDone, bflags sh true (b_werr sh))    (* close(done); tryCloseWrite(tunnelConn) *)
     | other => (other, sh)
     end.
 
@@ -279,8 +311,10 @@ Section Own.
       else (BTaken (b_pos sh), sh)
     | BTaken n => (* tunnelConn.Write(pending) returns: the tunnel has consumed what the slice holds NOW *)
       if LateWrite
-      then (BIdle, bset sh (b_buf sh) (b_pos sh) (b_lock sh) (b_out sh ++ firstn n (b_buf sh)) (b_inq sh) (b_seen sh))
-      else (BUnlock, bset sh (b_buf sh) 0%nat (b_lock sh) (b_out sh ++ firstn n (b_buf sh)) (b_inq sh) (b_seen sh))
+      then (BIdle, write_n n sh)
+      else (BUnlock, let sh1 := write_n n sh in
+                     if b_werr sh1 then sh1
+                     else bset sh1 (b_buf sh1) 0%nat (b_lock sh1) (b_out sh1) (b_inq sh1) (b_seen sh1))
     | BUnlock => (BIdle, bset sh (b_buf sh) (b_pos sh) None (b_out sh) (b_inq sh) (b_seen sh))
     | other => (other, sh)
     end.
@@ -292,7 +326,7 @@ Section Own.
     end.
 End Own.
 Definition own_init (ds : list dgram) : st bsh (nat * bpc) :=
-  ({| b_buf := []; b_pos := 0; b_lock := None; b_out := []; b_inq := ds; b_seen := [] |},
+  ({| b_buf := []; b_pos := 0; b_lock := None; b_out := []; b_inq := ds; b_seen := []; b_cw := false; b_werr := false |},
    [(0%nat, BIdle); (1%nat, BIdle)]).
 
 (* ---- specification vocabulary for "the stream is cut at byte offset cut" ---- *)
@@ -463,9 +497,12 @@ Section Tcp.
 End Tcp.
 
 (* dirw: the direction whose source sends s and whose DESTINATION is wrapped as cfg *)
-Definition dirw (s : list byte) (cuts : list nat) (e : N) (wd : bool) (wl : option N) (ws : bool) (cfg : wcfg) : dirst :=
-  {| d_rd := {| t_rd := {| rest := s; cuts := cuts; endk := e; carry := false |}; t_wd := wd |}; d_out := [];
+Definition dirwe (s : list byte) (cuts : list nat) (e : N) (wd : bool) (emp : list bool) (wl : option N) (ws : bool)
+                 (cfg : wcfg) : dirst :=
+  {| d_rd := {| t_rd := {| rest := s; cuts := cuts; endk := e; carry := false |}; t_wd := wd; t_empty := emp |}; d_out := [];
      d_wlimit := wl; d_wshort := ws; d_cfg := cfg; d_cw := 0; d_cwf := 0; d_bytes := 0; d_err := 0 |}.
+Definition dirw (s : list byte) (cuts : list nat) (e : N) (wd : bool) (wl : option N) (ws : bool) (cfg : wcfg) : dirst :=
+  dirwe s cuts e wd [] wl ws cfg.
 Definition dir0 (s : list byte) (cuts : list nat) (e : N) (wd : bool) (wl : option N) (ws : bool) : dirst :=
   dirw s cuts e wd wl ws cfg_direct.
 Definition tcp_init (D0 D1 : dirst) : st tsh (nat * tpc) :=
